@@ -578,6 +578,11 @@ func (en *Env) evalCall(n *ast.CallExpr) *SV {
 	}
 	// real function: pure symbolic evaluation
 	fn := x.eng.prog.FuncValue(fobj)
+	if fn != nil && x.unit != nil && x.unit.Con != nil {
+		if vc := x.eng.contractSeenFrom(x.unit.Con.Pkg, fn); vc != nil && vc.View && vc.Pure {
+			return en.viewCall(fn, vc, recv, n)
+		}
+	}
 	if fn == nil {
 		unsupportedf("no SSA for %s", fobj.FullName())
 	}
@@ -782,6 +787,34 @@ func (en *Env) evalOverlayCall(fobj *types.Func, decl *ast.FuncDecl, n *ast.Call
 			}
 		}
 		unsupportedf("field %s not in %s", fname, xt)
+	case "bcmk":
+		r := w.records["BC"]
+		if r == nil {
+			unsupportedf("bcmk used without `abstract bytecode.Type`")
+		}
+		args := make([]*Term, 7)
+		for i := range args {
+			args[i] = en.coerce(en.evalT(n.Args[i]), w.IS)
+		}
+		return TV(r.Make(args...))
+	case "bcop", "bck", "bca":
+		r := w.records["BC"]
+		if r == nil {
+			unsupportedf("%s used without `abstract bytecode.Type`", name)
+		}
+		v := en.evalT(n.Args[0])
+		if name == "bcop" {
+			return TV(r.Get(v, 0))
+		}
+		sel := en.evalT(n.Args[1])
+		base := 1
+		if name == "bca" {
+			base = 2
+		}
+		if sel.isLit {
+			return TV(r.Get(v, base+2*int(sel.lit.Int64())))
+		}
+		return TV(Ite(Eq(sel, w.Int(0)), r.Get(v, base), Ite(Eq(sel, w.Int(1)), r.Get(v, base+2), r.Get(v, base+4))))
 	case "eqv":
 		return TV(Eq(en.evalT(n.Args[0]), en.evalT(n.Args[1])))
 	case "atoiOK":
@@ -843,7 +876,12 @@ func (en *Env) evalOverlayCall(fobj *types.Func, decl *ast.FuncDecl, n *ast.Call
 	if en.depth > 12 {
 		unsupportedf("pred recursion too deep at %s", name)
 	}
-	sub := &Env{x: x, vars: map[string]*SV{}, bound: en.bound, heap: en.heap, old: en.old, st: en.st, info: en.info, depth: en.depth + 1}
+	sub := &Env{x: x, vars: map[string]*SV{}, bound: map[string]*Term{}, heap: en.heap, old: en.old, st: en.st, info: en.info, depth: en.depth + 1}
+	// bound variables of the caller are not visible by name inside the pred (its parameters shadow
+	// them); they are kept under a private name so that "is a quantifier open" checks still see them
+	for k, v := range en.bound {
+		sub.bound["\x00"+k] = v
+	}
 	i := 0
 	sig := fobj.Type().(*types.Signature)
 	for _, f := range decl.Type.Params.List {
@@ -1121,5 +1159,40 @@ func localByName(fn *ssa.Function, name string) *ssa.Alloc {
 			}
 		}
 	}
+	return nil
+}
+
+// viewCall evaluates a call to a pure function that has a (trusted) view
+// contract of the form `ensures result == EXPR`: the result is a fresh value
+// constrained by the ensures clauses.
+func (en *Env) viewCall(fn *ssa.Function, vc *Contract, recv ast.Expr, n *ast.CallExpr) *SV {
+	x := en.x
+	var args []*SV
+	if recv != nil {
+		args = append(args, en.eval(recv))
+	}
+	sig := fn.Signature
+	for i, a := range n.Args {
+		v := en.eval(a)
+		if v.T != nil && i < sig.Params().Len() {
+			v = TV(en.coerceArg(v.T, sig.Params().At(i).Type()))
+		}
+		args = append(args, v)
+	}
+	// direct definition: a single clause `result == E` is inlined as E
+	if len(vc.Ensures) == 1 {
+		if be, ok := vc.Ensures[0].Expr.(*ast.BinaryExpr); ok && be.Op == token.EQL {
+			if id, ok := be.X.(*ast.Ident); ok && len(vc.ResultNames) == 1 && id.Name == vc.ResultNames[0] {
+				sub := &Env{x: x, vars: map[string]*SV{}, bound: en.bound, heap: en.heap, old: en.old, st: en.st, info: x.eng.infoFor(vc.Ensures[0]), depth: en.depth + 1}
+				for i, nm := range vc.ParamNames {
+					if i < len(args) {
+						sub.vars[nm] = args[i]
+					}
+				}
+				return sub.eval(be.Y)
+			}
+		}
+	}
+	unsupportedf("view contract of %s is not of the form `ensures result == E`", fn)
 	return nil
 }
